@@ -97,7 +97,7 @@ def ref_build(x, memo=None, on_call=None):
       if 'value' not in built_args:
         raise RefRaised(fdl.TaggedValueNotFilledError('unset'), x)
       result = built_args['value']
-    elif type(x) is fdl.Config:
+    elif isinstance(x, fdl.Config):   # incl. the experimental DictConfig / NamespaceConfig subclasses
       pos, kw = form_call(x.__fn_or_cls__, built_args)
       if on_call is not None:
         on_call(x)
